@@ -20,7 +20,7 @@ pub fn run(rep: &mut Report) {
         or the probe reaches a non-root logger; distinct = (config, target, level)".to_owned();
     rep.assume("facade behaviour is observed in dedicated child processes; STATIC_MAX_LEVEL is the log crate's default (no compile-time filter)");
 
-    let n = if rep.tier == "thorough" { 20_000 } else { 1_500 };
+    let n = if rep.tier == "thorough" { 100_000 } else { 10_000 };
     run_cases(rep, "enabled", n, |rep, rng, idx| {
         let spec = gen_spec(rng, 8, 5);
         let sink = new_sink();
@@ -82,7 +82,7 @@ pub fn run(rep: &mut Report) {
     });
 
     // child histories
-    let per_variant = if rep.tier == "thorough" { 40 } else { 6 };
+    let per_variant = if rep.tier == "thorough" { 150 } else { 12 };
     let total = 4 * per_variant;
     run_cases(rep, "history", total, |rep, _rng, idx| {
         let variant = idx % 4;
